@@ -76,7 +76,12 @@ def _cases(draw, tier):
     for it in G.flatten(b.items):
         if it['t'] == 'include':
             dirs[it['file']] = draw(st.sampled_from(['src', 'inc_a', 'inc_b', 'inc_a']))
-    twist = draw(st.sampled_from([None, None, 'symlink', 'symlink', 'ambiguous', 'missing']))
+    twist = draw(st.sampled_from([None, None, 'symlink', 'symlink', 'ambiguous', 'ambiguous-identical', 'missing', 'repeated-D']))
+    if twist == 'repeated-D':
+        # one symbol defined by the ISA and twice more, differently, on the command line: whatever the tool makes of it,
+        # it makes the same of it in every run
+        cfg.setdefault('predefined', {}).setdefault('symbols', []).append({'name': 'SYMQ', 'value': '7'})
+        b.items.append({'t': 'raw', 'text': '.byte SYMQ'})
     if twist == 'symlink':
         # the include directory is reachable under two names: make sure something is included from it, and look
         # at the format that prints file names
@@ -133,10 +138,11 @@ def execute(case, ctx):
         files = dict(rendered)
         files[fname] = text
         incs = sorted(p for p in rendered if p != 'src/main.asm')
-        if case['twist'] == 'ambiguous' and incs:
+        if case['twist'] in ('ambiguous', 'ambiguous-identical') and incs:
             p = incs[0]
             other = 'inc_b/' if not p.startswith('inc_b/') else 'inc_a/'
-            files[other + p.split('/')[-1]] = '.byte 9\n'
+            # a second file of that name in another include directory (with other or with the very same contents)
+            files[other + p.split('/')[-1]] = '.byte 9\n' if case['twist'] == 'ambiguous' else files[p]
         if case['twist'] == 'missing' and incs:
             del files[incs[0]]
         idirs = list(case['iorder'])
@@ -166,6 +172,8 @@ def execute(case, ctx):
             argv = ['compile', '-c', os.path.join(root, fname), '-o', os.path.join(outdir, 'out.bin'),
                     '--pretty-print', '-t', case['fmt'], '--pretty-print-output', os.path.join(outdir, 'pp.txt')]
             argv += window
+            if case.get('twist') == 'repeated-D':
+                argv += ['-D', 'SYMQ=13', '-D', 'SYMQ=26']
             for d in order:
                 argv += ['-I', os.path.join(root, d)]
             argv.append(os.path.join(root, 'src/main.asm'))
